@@ -56,6 +56,9 @@ def match_known(prop, item: Item, known):
         ob = k.get('obligation', '')
         if ob and not item.id.startswith(ob):
             continue
+        ob_re = k.get('obligation_re')
+        if ob_re and not re.fullmatch(ob_re, item.id):
+            continue
         wm = k.get('witness_match')
         if wm is not None:
             if not re.search(wm, json.dumps(item.witness, default=repr, sort_keys=True)):
